@@ -132,6 +132,7 @@ impl<'b> Ctx<'b> {
             ("layout", "alloc") => "layout",
             ("panicking", "alloc") => "layout_panicking",
             ("panicking", "reserve") => "panicking",
+            ("typed", "alloc") => "typed",
             _ => "trait",
         }
     }
@@ -265,7 +266,10 @@ pub fn exec(sc: &mut dyn ScopeOps, ctx: &mut Ctx<'_>) -> Flow {
             "alloc" => {
                 ctx.pc += 1;
                 let l = layout(u(&args, "sz"), u(&args, "al"));
-                let via = ctx.via("alloc");
+                let mut via = ctx.via("alloc");
+                if via == "layout_panicking" && s(&exp, "res") != "ok" {
+                    via = "layout"; // a panicking method aborts the process on base allocator failure: use its try_ twin
+                }
                 region().fail_next.set(b(&args, "fail"));
                 let r = catch_unwind(AssertUnwindSafe(|| sc.allocate(l, b(&args, "zeroed"), via)));
                 region().fail_next.set(false);
@@ -366,7 +370,10 @@ pub fn exec(sc: &mut dyn ScopeOps, ctx: &mut Ctx<'_>) -> Flow {
             }
             "reserve" => {
                 ctx.pc += 1;
-                let via = ctx.via("reserve");
+                let mut via = ctx.via("reserve");
+                if via == "panicking" && s(&exp, "res") != "ok" {
+                    via = "trait";
+                }
                 region().fail_next.set(b(&args, "fail"));
                 let before = sc.snapshot();
                 let r = catch_unwind(AssertUnwindSafe(|| sc.reserve(u(&args, "n"), via)));
@@ -637,6 +644,7 @@ pub fn exec(sc: &mut dyn ScopeOps, ctx: &mut Ctx<'_>) -> Flow {
 pub fn run_root(make: &mut dyn FnMut(&Value) -> Option<Box<dyn BumpOps>>, ctx: &mut Ctx<'_>) {
     // step 0 is the constructor
     let ctor_args = ctx.steps[0]["args"].clone();
+    let through_bump = ctx.variant == "bump";
     ctx.pc = 1;
     let made = catch_unwind(AssertUnwindSafe(|| make(&ctor_args)));
     let mut bump = match made {
@@ -653,11 +661,11 @@ pub fn run_root(make: &mut dyn FnMut(&Value) -> Option<Box<dyn BumpOps>>, ctx: &
         }
     };
     {
-        let sc = bump.as_scope_ops();
+        let sc = bump.as_scope_ops(through_bump);
         ctx.record(0, Some(sc), Ctx::obs("ok"));
     }
     loop {
-        let flow = exec(bump.as_scope_ops(), ctx);
+        let flow = exec(bump.as_scope_ops(through_bump), ctx);
         match flow {
             Flow::BumpOp => {
                 let i = ctx.pc;
@@ -668,11 +676,11 @@ pub fn run_root(make: &mut dyn FnMut(&Value) -> Option<Box<dyn BumpOps>>, ctx: &
                 match a.as_str() {
                     "reset" => {
                         let r = catch_unwind(AssertUnwindSafe(|| bump.reset()));
-                        ctx.record(i, Some(bump.as_scope_ops()), Ctx::obs(if r.is_ok() { "ok" } else { "panic" }));
+                        ctx.record(i, Some(bump.as_scope_ops(through_bump)), Ctx::obs(if r.is_ok() { "ok" } else { "panic" }));
                     }
                     "reset_to_start" => {
                         let r = catch_unwind(AssertUnwindSafe(|| bump.reset_to_start()));
-                        ctx.record(i, Some(bump.as_scope_ops()), Ctx::obs(if r.is_ok() { "ok" } else { "panic" }));
+                        ctx.record(i, Some(bump.as_scope_ops(through_bump)), Ctx::obs(if r.is_ok() { "ok" } else { "panic" }));
                     }
                     "drop" => {
                         let r = catch_unwind(AssertUnwindSafe(move || drop(bump)));
@@ -806,6 +814,8 @@ fn run_prep(sc: &mut dyn ScopeOps, ctx: &mut Ctx<'_>) {
                     let mut o = match r {
                         Ok((addr, len, bytes)) => {
                             let mut o = Ctx::obs("ok");
+                            // an empty final slice is a dangling pointer: its address carries no information
+                            let addr = if len == 0 { 0 } else { addr };
                             o.insert("addr".into(), json!(addr));
                             o.insert("len".into(), json!(len * esz));
                             // exactly the pushed elements: in push order, reversed for the rev collection
